@@ -4,7 +4,9 @@ package gocql
 
 import (
 	"context"
+	"fmt"
 	"net"
+	"sync"
 
 	"github.com/gocql/gocql/internal/lru"
 )
@@ -19,6 +21,9 @@ import (
 type VerifLive struct {
 	S *Session
 	C *Conn
+
+	evMu     sync.Mutex
+	evFrames []frame // EVENT frames the session's debouncers were handed (see DrainEvents)
 }
 
 type verifPipeDialer struct{ conn net.Conn }
@@ -38,7 +43,9 @@ func (verifNopLogger) Println(v ...interface{})               {}
 // would set them).
 func VerifDial(clientEnd net.Conn, cfg ClusterConfig) (*VerifLive, error) {
 	cfg.HostDialer = verifPipeDialer{clientEnd}
-	cfg.Logger = verifNopLogger{}
+	if cfg.Logger == nil {
+		cfg.Logger = verifNopLogger{}
+	}
 	ctx, cancel := context.WithCancel(context.Background())
 	s := &Session{
 		cons:     cfg.Consistency,
@@ -56,14 +63,89 @@ func VerifDial(clientEnd net.Conn, cfg ClusterConfig) (*VerifLive, error) {
 		return nil, err
 	}
 	s.connCfg = connCfg
+	// as NewSession does: the public observers of the ClusterConfig and the two event debouncers
+	// (Conn.recv hands every EVENT frame to Session.handleEvent, which parses it and passes it on
+	// to one of them). Their callbacks only record the frames.
+	s.frameObserver = cfg.FrameHeaderObserver
+	s.streamObserver = cfg.StreamObserver
+	l := &VerifLive{S: s}
+	s.nodeEvents = newEventDebouncer("NodeEvents", l.recordEvents, s.logger)
+	s.schemaEvents = newEventDebouncer("SchemaEvents", l.recordEvents, s.logger)
 	host := &HostInfo{hostId: "verif-host-1", connectAddress: net.IPv4(127, 0, 0, 1), port: 9042}
 	c, err := s.connect(ctx, host, connErrorHandlerFn(func(conn *Conn, err error, closed bool) {}))
 	if err != nil {
 		cancel()
+		s.nodeEvents.stop()
+		s.schemaEvents.stop()
 		return nil, err
 	}
-	return &VerifLive{S: s, C: c}, nil
+	l.C = c
+	return l, nil
 }
+
+func (l *VerifLive) recordEvents(frames []frame) {
+	l.evMu.Lock()
+	l.evFrames = append(l.evFrames, frames...)
+	l.evMu.Unlock()
+}
+
+// DrainEvents returns the view of every EVENT frame that Session.handleEvent has parsed and
+// handed to a debouncer since the last call (taken out of the debouncers' buffers, so that
+// nothing waits for their one-second timers).
+func (l *VerifLive) DrainEvents() []*VerifView {
+	for _, d := range []*eventDebouncer{l.S.nodeEvents, l.S.schemaEvents} {
+		d.mu.Lock()
+		ev := d.events
+		d.events = nil
+		d.mu.Unlock()
+		l.recordEvents(ev)
+	}
+	l.evMu.Lock()
+	frames := l.evFrames
+	l.evFrames = nil
+	l.evMu.Unlock()
+	var out []*VerifView
+	for _, fr := range frames {
+		view := &VerifView{FrameType: fmt.Sprintf("%T", fr)}
+		h := fr.Header()
+		view.VersionByte, view.Flags, view.Stream, view.Op, view.Length = byte(h.version), h.flags, h.stream, byte(h.op), h.length
+		view.Warnings = h.warnings
+		verifFill(view, fr)
+		out = append(out, view)
+	}
+	return out
+}
+
+type verifNopTracer struct{}
+
+func (verifNopTracer) Trace(traceId []byte) {}
+
+// Options sends an OPTIONS request on the live connection and parses the response, the way
+// Conn.heartBeat does (c.exec(ctx, &writeOptionsFrame{}, nil); framer.parseFrame()). The
+// request carries the tracing flag (a tracer is passed to exec), which is how the scripted
+// node tells it from the connection's own heartbeat OPTIONS.
+func (l *VerifLive) Options(ctx context.Context) (*VerifView, error) {
+	framer, err := l.C.exec(ctx, &writeOptionsFrame{}, verifNopTracer{})
+	if err != nil {
+		return nil, err
+	}
+	fr, err := framer.parseFrame()
+	if err != nil {
+		return nil, err
+	}
+	view := &VerifView{FrameType: fmt.Sprintf("%T", fr)}
+	h := fr.Header()
+	view.VersionByte, view.Flags, view.Stream, view.Op, view.Length = byte(h.version), h.flags, h.stream, byte(h.op), h.length
+	view.TraceID = framer.traceID
+	view.Warnings = framer.header.warnings
+	view.HasPayload = framer.customPayload != nil
+	view.Payload = framer.customPayload
+	view.Remaining = len(framer.buf)
+	verifFill(view, fr)
+	return view, nil
+}
+
+func (l *VerifLive) Closed() bool { return l.C.Closed() }
 
 // Bind pins a query created with the public API (l.S.Query(...)) to the live
 // connection, the way Conn.query does for the driver's own internal queries:
@@ -77,4 +159,6 @@ func (l *VerifLive) ExecBatch(b *Batch) *Iter { return l.C.executeBatch(b.Contex
 func (l *VerifLive) Close() {
 	l.C.Close()
 	l.S.cancel()
+	l.S.nodeEvents.stop()
+	l.S.schemaEvents.stop()
 }
